@@ -114,7 +114,9 @@ class FPFormat:
         class QuantiseBackward(torch.autograd.Function):
             @staticmethod
             def forward(ctx: torch.autograd.function.FunctionCtx, x: Tensor) -> Tensor:
-                return x
+                # (a copy, not `x` itself: autograd forbids in-place ops on an
+                # input that a custom Function returns as-is)
+                return x.clone()
 
             @staticmethod
             def backward(  # type:ignore[override]
